@@ -1,6 +1,13 @@
 """C18: codec key tables of the four detector classes, Photon's sub-keys, the ASDF backend's pass-through
 shape and the body shape of `load_detector`  ->  Gen_C18.v  (fail closed on every other shape).
 
+Every function is read in the NORMAL FORM computed by translator/c18_norm.py (general, behaviour-preserving rewrites:
+module-level constants resolved, private helpers of the package inlined, single-binding local aliases and named
+intermediate results substituted, match / local dispatch dict -> if chain, guard clauses, filling loops -> comprehensions,
+conditional assignments -> conditional expressions, loops over literal tuples unrolled, getattr/setattr with literal
+names, annotations / docstrings / logging dropped), so that a refactoring of those kinds yields the same table; every
+shape the normal form does not reduce to the ones below still fails closed.
+
 Extracted (nothing else is believed about the code):
   * T.to_dict      : the dict literal: "type" tag, keys under "properties" (<- which attribute), keys under
                      "data" (<- which container attribute, which key.replace(a, b) escaping)
